@@ -33,9 +33,25 @@ func (c *tableCodec) Restore(b []byte) int {
 // spec: id | encoding length << 4
 func (c *tableCodec) define(spec int) int {
 	id := spec & 15
-	n := spec >> 4
+	n := (spec >> 4) & 0xff
 	if !c.defined[id] {
-		e := vpBytes(n)
+		var e []byte
+		if spec&(1<<12) != 0 {
+			// stemmed 14-byte encoding: symbolic bytes at positions 0, 6, 12, 13, concrete bytes in between —
+			// two fields' worth of key with long shared runs (compressed paths beyond the inline limit below a branch)
+			n = 14
+			e = make([]byte, 14)
+			for i := range e {
+				switch i {
+				case 0, 6, 12, 13:
+					e[i] = vpU8()
+				default:
+					e[i] = byte(0x60 + i)
+				}
+			}
+		} else {
+			e = vpBytes(n & 0xff)
+		}
 		for j := range c.tab {
 			if c.defined[j] {
 				vpAssume(!vpEqBytes(c.tab[j], e))       // injective
